@@ -28,11 +28,13 @@ Definition RUN_FUEL : nat := 20000.
 
 (** P <ast>: evaluate a position-less AST in a fresh initial environment;
     output: outcome | trace (oldest first) *)
+Definition observe (ast : val) : list N :=
+  let '(o, st) := eval RUN_FUEL 1 ast ROOT init_state in
+  show_outcome o ++ s_ "| " ++ show_val (VList (rev (trace st)) None).
+
 Definition run_program (ts : list tok) : list N :=
   match parse_value ts with
-  | Some (ast, []) =>
-      let '(o, st) := eval RUN_FUEL 1 ast ROOT init_state in
-      show_outcome o ++ s_ "| " ++ show_val (VList (rev (trace st)) None)
+  | Some (ast, []) => observe ast
   | _ => bad
   end.
 
